@@ -12,6 +12,7 @@ package store
 import (
 	"fmt"
 	"math"
+	"os"
 	"sort"
 	"strings"
 	"testing"
@@ -329,9 +330,10 @@ func TestVerifC15(t *testing.T) {
 	rec := kit.For(t, "C15")
 	known := kit.KnownFindings("C15")[sigC15Dup]
 
+	skipFixed := os.Getenv("VERIF_SKIP_FIXED") != "" // sensitivity experiments: let only the generator find mutants
 	// saved regression input of finding F4: the raw block surrounds the only 5m block and is picked
 	// once for the gap before it and once for the gap behind it.
-	{
+	if !skipFixed {
 		c := c15Case{blocks: []c15Blk{{0, 0, 100}, {downsample.ResLevel1, 40, 60}}, mint: 0, maxt: 100, maxRes: downsample.ResLevel1}
 		res := c15Check(c, false)
 		if res.msg != "" {
@@ -354,6 +356,9 @@ func TestVerifC15(t *testing.T) {
 		{blocks: []c15Blk{{0, 50, 60}}, mint: 60, maxt: 70, maxRes: 0},
 		{blocks: []c15Blk{{0, 50, 60}}, mint: 40, maxt: 50, maxRes: 0},
 	} {
+		if skipFixed {
+			break
+		}
 		if res := c15Check(c, known); res.msg != "" {
 			rec.Violation(t, "fixed input: %s | %s", res.msg, c.String())
 		}
